@@ -321,6 +321,20 @@ def col_sum(ctx, tk):
                "coincident boundaries of different rows reach RunLengthArray as empty runs", key="remove-empty", engine="E1")
 
 
+def _searchsorted_side(t):
+    """'left' / 'right' when the term is np.searchsorted(...) possibly with a constant added or subtracted, else None"""
+    x = t
+    while x.k == "bin" and x.a[0] in ("-", "+"):
+        x = x.a[1]
+    if np_call(x, {"searchsorted"}) or (x.k == "call" and x.a[0].k == "attr" and x.a[0].a[1] == "searchsorted"):
+        side = dict(x.a[2]).get("side")
+        if side is None:
+            return "left"
+        if side.k == "const" and side.a[0] in ("left", "right"):
+            return side.a[0]
+    return None
+
+
 def first_match(ctx, rule, f):
     """argmax reports the FIRST position of the row maximum: among the (row, col) matches sorted by row the
     entry picked per row must be the first of its group"""
@@ -336,6 +350,14 @@ def first_match(ctx, rule, f):
                     x = x.a[0]
                 if np_call(x, {"unique"}) and any(k == "return_index" and is_const(v, True) for k, v in x.a[2]):
                     ctx.holds(rule, f, what + " [np.unique(rows, return_index=True)]", node=n.ast, engine="KB")
+                    done = True
+                elif _searchsorted_side(x) is not None:
+                    # rows is ascending: side="left" finds the first entry of a group, side="right" (minus one) its last
+                    if _searchsorted_side(x) == "right":
+                        ctx.violated(rule, f, what, "`%s` locates the LAST match of every row (searchsorted(..., side='right') - 1): tied extrema report the last position" % (a,),
+                                     node=n.ast, engine="KB")
+                    else:
+                        ctx.holds(rule, f, what + " [searchsorted, side='left']", node=n.ast, engine="KB")
                     done = True
                 elif np_call(x, {"flatnonzero"}) and x.a[1] and np_call(x.a[1][0], {"diff"}):
                     kw = dict(x.a[1][0].a[2])
